@@ -366,7 +366,7 @@ def rule_o1(F):
                     hd = mir.Defs(hb_)
                     h0_, h1_ = select_param(hb_, "E0"), select_param(hb_, "E1")
                     return bool(h0_ and h1_ and events(hb_, hd, "expr", h0_) and events(hb_, hd, "expr", h1_))
-                doing = [hb for hb in same if lowers(hb)]
+                doing = [hb for hb in same if lowers(hb) and hb.path not in CHAINS]     # a helper with an entry of its own is checked against that
                 if doing:
                     for hb in doing:
                         work.append((hb.path, chains, hb, fn + " via " + hir.last(hb.path)))
